@@ -7,6 +7,7 @@ AS_H = 'src/tbb/arena_slot.h'
 TD_CPP = 'src/tbb/task_dispatcher.cpp'
 PF_H = 'include/oneapi/tbb/parallel_for.h'
 MB_H = 'src/tbb/mailbox.h'
+PP_CPP = 'src/tbb/parallel_pipeline.cpp'
 PT_H = 'include/oneapi/tbb/partitioner.h'
 TGC_CPP = 'src/tbb/task_group_context.cpp'
 CD_H = 'src/tbb/cancellation_disseminator.h'
@@ -270,6 +271,27 @@ MUTANTS = [
          "        if( m_is_final )\n            m_body(m_range, final_scan_tag());\n        if( m_sum_slot )")]),
     dict(name='c06-sort-direct-write', prop='C06', clause='D5', edits=[
         ('include/oneapi/tbb/parallel_sort.h', "        if( m != 0 ) std::iter_swap(array, array + m);", "        if( m != 0 ) array[0] = array[m];")]),
+    # ---------------------------------------------------------------- C07
+    dict(name='c07-next-token-unlocked', prop='C07', clause='D1', edits=[
+        (PP_CPP, "        task_info wakee;\n        {\n            spin_mutex::scoped_lock lock( array_mutex );\n            // Wake the next task", "        task_info wakee;\n        {\n            // Wake the next task")]),
+    dict(name='c07-put-token-late-lock', prop='C07', clause='D1', edits=[
+        (PP_CPP, "        info.is_valid = true;\n        spin_mutex::scoped_lock lock( array_mutex );\n        Token token;\n        if( is_ordered ) {\n            if( !info.my_token_ready ) {\n                info.my_token = high_token++;\n                info.my_token_ready = true;\n            }\n            token = info.my_token;\n        } else\n            token = high_token++;",
+         "        info.is_valid = true;\n        Token token;\n        if( is_ordered ) {\n            if( !info.my_token_ready ) {\n                info.my_token = high_token++;\n                info.my_token_ready = true;\n            }\n            token = info.my_token;\n        } else\n            token = high_token++;\n        spin_mutex::scoped_lock lock( array_mutex );")]),
+    dict(name='c07-skip-next-token-when-null', prop='C07', clause='D2', edits=[
+        (PP_CPP, "        if( my_filter->is_serial() )\n            my_filter->my_input_buffer->try_to_spawn_task_for_next_token(*this, ed);",
+         "        if( my_filter->is_serial() && my_object )\n            my_filter->my_input_buffer->try_to_spawn_task_for_next_token(*this, ed);")]),
+    dict(name='c07-buffered-task-continues', prop='C07', clause='D2', edits=[
+        (PP_CPP, "                my_filter = nullptr; // To prevent deleting my_object twice if exception occurs\n                return false;",
+         "                return true;")]),
+    dict(name='c07-spawn-without-token', prop='C07', clause='D3', edits=[
+        (PP_CPP, "        if( (my_pipeline.input_tokens.fetch_sub(1, std::memory_order_release)) > 1 ) {", "        if( (my_pipeline.input_tokens.fetch_sub(1, std::memory_order_release)) > 0 ) {")]),
+    dict(name='c07-recycle-always', prop='C07', clause='D3', edits=[
+        (PP_CPP, "        if( ntokens_avail>0  // Only recycle if there is one available token\n                || my_pipeline.end_of_input.load(std::memory_order_relaxed) ) {",
+         "        if( my_pipeline.end_of_input.load(std::memory_order_relaxed) ) {")]),
+    dict(name='c07-ctor-no-reserve', prop='C07', clause='D4', edits=[
+        (PP_CPP, "        my_at_start(false)\n    {\n        my_pipeline.wait_ctx.reserve();\n    }", "        my_at_start(false)\n    {\n    }")]),
+    dict(name='c07-execute-no-finalize', prop='C07', clause='D4', edits=[
+        (PP_CPP, "        if(!execute_filter(ed)) {\n            finalize(ed);\n            return nullptr;\n        }", "        if(!execute_filter(ed)) {\n            return nullptr;\n        }")]),
 ]
 
 BENIGN = [
@@ -296,4 +318,7 @@ BENIGN = [
         (PT_H, "        while( range.is_divisible() )\n            start.offer_work( split_obj, ed );", "        while( range.is_divisible() ) {\n            if (!range.is_divisible()) break;\n            start.offer_work( split_obj, ed );\n        }")]),
     dict(name='c06-b-swap-instead-of-iter_swap', prop='C06', edits=[
         ('include/oneapi/tbb/parallel_sort.h', "        std::iter_swap(array + j, first_element);", "        std::iter_swap(first_element, array + j);")]),
+    dict(name='c07-b-manual-lock', prop='C07', edits=[
+        (PP_CPP, "        task_info wakee;\n        {\n            spin_mutex::scoped_lock lock( array_mutex );\n            // Wake the next task",
+         "        task_info wakee;\n        {\n            spin_mutex::scoped_lock lock;\n            lock.acquire( array_mutex );\n            // Wake the next task")]),
 ]
